@@ -425,4 +425,176 @@ theorem depOption_options_ne {c : Cfg} {pkg : Pkg} {allowPin : Text} {ds : DepSt
               rw [← h.2]
               simpa using hne
 
+/-! ### the dependency loop does not fail -/
+
+def ResOK {α} (P : α → Prop) : Res α → Prop
+  | .ok a => P a
+  | .err => False
+  | .outOfFuel => True
+
+structure GoodS (c : Cfg) (S : List Pkg) (out : DepOut) : Prop where
+  deps : ∀ d ∈ out.deps, d ∈ S
+  inv : SInv c S out.ds
+
+theorem SInv.congr {c : Cfg} {S : List Pkg} {ds ds2 : DepSt} (h : SInv c S ds) (h1 : ds2.st.dq = ds.st.dq)
+    (h2 : ds2.st.selected = ds.st.selected) (h3 : ds2.existing = ds.existing) : SInv c S ds2 :=
+  ⟨h1 ▸ h.locked, h1 ▸ h.free, h2 ▸ h.sel, h3 ▸ h.ex⟩
+
+theorem passFold_some (c : Cfg) (pkg : Pkg) (allowPin : Text) (ds : DepSt) :
+    ∀ (l : List Text) (s0 : C02.PassSt), (∀ d ∈ l, depOption c pkg allowPin ds d ≠ .fail) →
+      ∃ r, l.foldl (C02.passStep c pkg allowPin ds) (some s0) = some r := by
+  intro l
+  induction l with
+  | nil => intro s0 _; exact ⟨s0, rfl⟩
+  | cons d ds' ih =>
+    intro s0 h
+    obtain ⟨o, cf, fl⟩ := s0
+    simp only [List.foldl_cons]
+    have hd := h d List.mem_cons_self
+    have hr := fun s1 => ih s1 (fun x hx => h x (List.mem_cons_of_mem _ hx))
+    cases hopt : depOption c pkg allowPin ds d with
+    | skip => simp only [C02.passStep, hopt]; exact hr _
+    | skipF f => simp only [C02.passStep, hopt]; exact hr _
+    | conflict x => simp only [C02.passStep, hopt]; exact hr _
+    | fail => exact absurd hopt hd
+    | options d2 pkgs => simp only [C02.passStep, hopt]; exact hr _
+
+theorem minFunc_ne_nil {cmp : Pkg → Pkg → Ordering} {l : List Pkg} (h : l ≠ []) : ∃ b, minFunc cmp l = some b := by
+  cases l with
+  | nil => exact absurd rfl h
+  | cons x xs => exact ⟨_, rfl⟩
+
+theorem flag_selected1 (s : St) (f : String) : (s.flag f).selected = s.selected := by
+  unfold St.flag; split <;> rfl
+
+theorem pick_ok {c : Cfg} {S : List Pkg} (ctx : Ctx c S) (sd : Side c S) {pkg : Pkg} (hpkg : pkg ∈ S)
+    {sel : List (Text × Pkg)} (hsel : ∀ n p, lookupT sel n = some p → p ∈ S ∧ p.name = n) :
+    ∃ sel2, pick pkg sel = some sel2 ∧ ∀ n p, lookupT sel2 n = some p → p ∈ S ∧ p.name = n := by
+  unfold pick
+  cases hl : lookupT sel pkg.name with
+  | some conflict =>
+    obtain ⟨h1, h2⟩ := hsel _ _ hl
+    have : conflict = pkg := sd.names conflict h1 pkg hpkg h2
+    subst this
+    exact ⟨sel, by simp, hsel⟩
+  | none =>
+    simp only [ctx.noprov pkg (ctx.sIn pkg hpkg)]
+    refine ⟨setT sel pkg.name pkg, rfl, fun n p h => ?_⟩
+    rw [lkp_setT] at h
+    split at h
+    · next e => simp only [Option.some.injEq] at h; subst h; exact ⟨hpkg, e.symm⟩
+    · exact hsel n p h
+
+theorem ex_fold {S : List Pkg} (names : ∀ p ∈ S, ∀ q ∈ S, p.name = q.name → p = q) :
+    ∀ (deps : List Pkg) (e : List (Text × Pkg)), (∀ d ∈ deps, d ∈ S) → (∀ p ∈ S, lookupT e p.name = some p) →
+      ∀ p ∈ S, lookupT (deps.foldl (fun e d => setT e d.name d) e) p.name = some p := by
+  intro deps
+  induction deps with
+  | nil => intro e _ he; exact he
+  | cons d ds ih =>
+    intro e hd he
+    simp only [List.foldl_cons]
+    apply ih _ (fun x hx => hd x (List.mem_cons_of_mem _ hx))
+    intro p hp
+    rw [lkp_setT]
+    split
+    · next hn => rw [names p hp d (hd d List.mem_cons_self) hn]
+    · exact he p hp
+
+theorem depLoop_succ {c : Cfg} {S : List Pkg} (ctx : Ctx c S) (sd : Side c S)
+    (rec : Pkg → List (Text × Nat) → DepSt → Res DepOut)
+    (hrec : ∀ best ps ds, best ∈ S → SInv c S ds → ResOK (GoodS c S) (rec best ps ds))
+    (pkg : Pkg) (hpkg : pkg ∈ S) (allowPin : Text) (parents : List (Text × Nat)) :
+    ∀ (fuel : Nat) (constraints : List Text) (acc : DepOut),
+      (∀ d ∈ constraints, d ∈ pkg.deps) → GoodS c S acc →
+      ResOK (GoodS c S) (depLoop c rec pkg allowPin parents fuel constraints acc) := by
+  intro fuel
+  induction fuel with
+  | zero => intro constraints acc _ _; simp [depLoop, ResOK]
+  | succ fuel ih =>
+    intro constraints acc hcs hacc
+    rw [depLoop]
+    split
+    · exact hacc
+    · simp only
+      obtain ⟨r, hpass⟩ := passFold_some c pkg allowPin acc.ds constraints ([], acc.conflicts, [])
+        (fun d hd => depOption_not_fail ctx sd hpkg allowPin hacc.inv (hcs d hd))
+      split
+      · next hnone =>
+        have : (some r : Option C02.PassSt) = none := hpass.symm.trans hnone
+        cases this
+      · next opts confs fl hfold =>
+        have hfold2 : constraints.foldl (C02.passStep c pkg allowPin acc.ds) (some ([], acc.conflicts, [])) =
+            some (opts, confs, fl) := hfold
+        obtain ⟨_, hopts, _, _⟩ := C02.passFold_spec c pkg allowPin acc.ds constraints [] acc.conflicts [] opts confs fl hfold2
+        have hinvfl : SInv c S { acc.ds with st := fl.foldl St.flag acc.ds.st } :=
+          hacc.inv.congr (foldl_flag_dq _ _) (C02.foldl_flag_selected _ _) rfl
+        split
+        · exact ⟨hacc.deps, hinvfl⟩
+        · next lowest pkgs hlow =>
+          have hmem := hopts _ (lowestOption_mem _ _ hlow)
+          rcases hmem with hmem | ⟨hlc, hopt⟩
+          · cases hmem
+          · simp only at hlc hopt
+            obtain ⟨_, hnc, hpk⟩ := depOption_options c pkg allowPin acc.ds lowest lowest pkgs hopt
+            obtain ⟨best, hbest⟩ := minFunc_ne_nil (cmp := comparePackages c.bothBad (parseConstraint lowest).name []
+              acc.ds.existing acc.ds.origins) (depOption_options_ne hopt)
+            simp only [hbest]
+            have hbmem : best ∈ pkgs := C02.mem_of_minFunc hbest
+            obtain ⟨q, hqS, hqn, _⟩ := closed_member ctx hpkg (hcs _ hlc) hnc
+            rw [hpk] at hbmem
+            have hbS : best ∈ S := candidate_member ctx hacc.inv.locked ⟨q, hqS, hqn⟩ hbmem
+            rw [disqualifyConflicts_noprov c best _ (ctx.noprov best (ctx.sIn best hbS))]
+            simp only
+            obtain ⟨sel1, hpick, hsel1⟩ := pick_ok ctx sd hpkg hinvfl.sel
+            simp only at hpick
+            rw [hpick]
+            simp only
+            have hinv1 : SInv c S { acc.ds with st := { (fl.foldl St.flag acc.ds.st) with
+                dq := (fl.foldl St.flag acc.ds.st).dq, selected := sel1 } } :=
+              ⟨hinvfl.locked, hinvfl.free, hsel1, hinvfl.ex⟩
+            have hr := hrec best (parents ++ [(pkg.name, pkg.id)]) _ hbS hinv1
+            split
+            · next heq => rw [heq] at hr; exact hr
+            · trivial
+            · next sub heq =>
+              rw [heq] at hr
+              apply ih
+              · intro d hd
+                have hd2 := (List.mem_filter.mp hd).1
+                obtain ⟨e, he, rfl⟩ := List.mem_map.mp hd2
+                rcases hopts e he with h | ⟨h, _⟩
+                · cases h
+                · exact hcs _ h
+              · refine ⟨?_, ⟨hr.inv.locked, hr.inv.free, hr.inv.sel, ?_⟩⟩
+                · intro d hd
+                  simp only [List.mem_append, List.mem_singleton] at hd
+                  rcases hd with (hd | hd) | rfl
+                  · exact hacc.deps d hd
+                  · exact hr.deps d hd
+                  · exact hbS
+                · exact ex_fold sd.names sub.deps sub.ds.existing hr.deps hr.inv.ex
+
+theorem getDeps_succ {c : Cfg} {S : List Pkg} (ctx : Ctx c S) (sd : Side c S) :
+    ∀ (fuel : Nat) (pkg : Pkg) (allowPin : Text) (parents : List (Text × Nat)) (ds : DepSt),
+      pkg ∈ S → SInv c S ds → ResOK (GoodS c S) (getDeps c fuel pkg allowPin parents ds) := by
+  intro fuel
+  induction fuel with
+  | zero => intro pkg allowPin parents ds _ _; simp [getDeps, ResOK]
+  | succ fuel ih =>
+    intro pkg allowPin parents ds hpkg inv
+    rw [getDeps]
+    split
+    · refine ⟨(by intro d hd; cases hd), ?_⟩
+      simp only
+      split
+      · exact inv.congr (flag_dq _ _) (flag_selected1 _ _) rfl
+      · exact inv
+    · obtain ⟨dq1, hcon, hfree⟩ := constrain_free ctx sd pkg.deps ds.st.dq (dep_conOK ctx sd hpkg) inv.free
+      rw [hcon]
+      simp only
+      refine depLoop_succ ctx sd _ (fun best ps ds2 hb hi => ih best allowPin ps ds2 hb hi) pkg hpkg allowPin parents
+        _ _ _ (fun d hd => hd) ⟨(by intro d hd; cases hd), ?_⟩
+      exact ⟨inv.locked.mono (constrain_sub c _ _ _ hcon), hfree, inv.sel, inv.ex⟩
+
 end Apko.Lock
